@@ -524,7 +524,7 @@ def verdict(prop, mod, tier, seed, groups, results, t0, a):
     if canaries == 0 and any(r.get('kind') == 'proof' for r in results) and not broken and a.group is None:
         broken.append('no canary obligation was refuted (vacuity guard)')
     for n_ in abandoned_notes[:8]:
-        print('NOTE property=%s abandoned path (path condition unsatisfiable): %s' % (prop, n_))
+        undecided.append('path abandoned because its path condition became unsatisfiable (contradictory harness precondition => vacuous obligations): %s' % n_)
     if broken:
         for b in broken:
             print('CHECKER-BROKEN property=%s %s' % (prop, b[:1500]))
